@@ -5,6 +5,7 @@ import (
 	"bytes"
 	stded "crypto/ed25519"
 	"crypto/sha512"
+	"io"
 	"testing"
 
 	pated "github.com/cloudflare/pat-go/ed25519"
@@ -198,5 +199,45 @@ func TestBlinding(t *testing.T) {
 		s.Sample(func() any {
 			return map[string]any{"pub": rt.Hex(pub), "blind": rt.Hex(b1), "ctx": rt.Hex(ctx), "blinded": rt.Hex(bp), "sig": rt.Hex(sig)}
 		})
+	})
+}
+
+// TestUnblindVolume: unblinding inverts blinding, over many (blind, context) pairs per key. The blinding factor is a hash
+// output, so value-dependent faults of the inversion (a factor whose inverse has leading zero bytes: 1 pair in 256, in
+// 65536, ...) cannot be aimed at; they are met by volume.
+func TestUnblindVolume(t *testing.T) {
+	s := rt.S("unblind-volume").SetRule("one key per case, many (blind, context) pairs: UnblindPublicKeyWithContext(BlindPublicKeyWithContext(pk)) == pk, and the blinded key equals the math/big reference for a sample of them. non-trivial = every pair; distinct by (key, blind, context)")
+	perCase := 500
+	rt.Check(t, 30000/perCase, 4000000/perCase, func(t *rapid.T) {
+		seed := gen.Bytes32().Draw(t, "seed")
+		stream := rt.NewDRBG(gen.Seed().Draw(t, "pairs"))
+		pub := pated.NewKeyFromSeed(seed).Public().(pated.PublicKey)
+		ctxLen := gen.Pick(t, []int{0, 0, 1, 16, 100}, "ctxLen")
+		buf := make([]byte, 32+ctxLen)
+		for i := 0; i < perCase; i++ {
+			if _, err := io.ReadFull(stream, buf); err != nil {
+				t.Fatalf("harness: %v", err)
+			}
+			blind, ctx := append([]byte{}, buf[:32]...), append([]byte{}, buf[32:]...)
+			bp, err := pated.BlindPublicKeyWithContext(pub, blind, ctx)
+			if err != nil {
+				rt.Fail(t, "C15/blind-error", "BlindPublicKeyWithContext: %v", err)
+				return
+			}
+			back, err := pated.UnblindPublicKeyWithContext(bp, blind, ctx)
+			if err != nil || !bytes.Equal(back, pub) {
+				rt.Fail(t, "C15/unblind", "Unblind(Blind(pk)) = %x, pk = %x (%v); blind %x ctx %x", []byte(back), []byte(pub), err, blind, ctx)
+				return
+			}
+			if i%100 == 0 {
+				if want, ok := refBlind(pub, blind, ctx); !ok || !bytes.Equal(bp, want) {
+					rt.Fail(t, "C15/blind-value", "blinded key %x, reference %x (pub %x blind %x ctx %x)", []byte(bp), want, []byte(pub), blind, ctx)
+					return
+				}
+			}
+			s.Eval()
+		}
+		s.NontrivialEnum(int64(perCase))
+		s.Sample(func() any { return map[string]any{"pub": rt.Hex(pub), "pairs": perCase, "ctx_len": ctxLen} })
 	})
 }
